@@ -65,13 +65,13 @@ Notation e_drop := (e_drop terms tid).
 Notation e_goi := (e_goi KZbdd terms nl tid cap).
 
 (** `reduce` *)
-Definition z_reduce (s : cst) (lvl : nat) (hi lo : edge) : kres :=
+Definition z_reduce (s : cst) (lvl : nat) (hi lo : edge) : krres :=
   if is_empty_b ztsnap (eref hi) then
     match e_drop s hi with Some s1 => KOk s1 lo | None => KStuck end
   else e_goi s lvl hi lo.
 
 (** `reduce_borrowed` *)
-Definition z_reduce_bor (s : cst) (lvl : nat) (hi : ref) (lo : edge) : kres :=
+Definition z_reduce_bor (s : cst) (lvl : nat) (hi : ref) (lo : edge) : krres :=
   if is_empty_b ztsnap hi then KOk s lo
   else match e_clone s (E hi) with
        | Some s1 => e_goi s1 lvl (E hi) lo
